@@ -313,20 +313,30 @@ def pathWhy (orc : Oracles) (c : Case) (o : Obs) : Option Why :=
       some (if hasIntegralFloat orc din0 then .pathDependentFloat else .pathDependent)
     else none
 
+/-- The settings of the input as YAML writes them back (`1.5e3` is the setting `1500`). -/
+def frameInput (orc : Oracles) (din0 : YVal) : YVal :=
+  (reparse orc (match din0 with | .null => .obj [] | d => d)).getD din0
+
+/-- The single-step run lost a setting the step does not concern. -/
+def stepFrameBad (c : Case) (o : Obs) (cur : Nat) (din : YVal) : Bool :=
+  match c.stepTarget, o.step with
+  | some t, some (.up d) => t == cur + 1 && !frameOK (touched t) din d
+  | _, _ => false
+
+/-- The single run lost a setting none of its steps concerns. -/
+def oneFrameBad (c : Case) (o : Obs) (cur : Nat) (din : YVal) : Bool :=
+  match o.one with
+  | .up d => !frameOK (touchedRange (c.target - cur) cur) din d
+  | _ => false
+
 /-- settings a step does not concern are preserved -/
 def frameWhy (orc : Oracles) (c : Case) (o : Obs) : Option Why :=
   match caseVersion c with
   | none => none
   | some (din0, cur) =>
-    if cur == c.target then none else
-    -- the settings as YAML writes them back (`1.5e3` is the setting `1500`)
-    let din := (reparse orc (match din0 with | .null => .obj [] | d => d)).getD din0
-    if (match c.stepTarget, o.step with
-        | some t, some (.up d) => t == cur + 1 && !frameOK (touched t) din d
-        | _, _ => false) then some (.settingLost (cur + 1))
-    else if (match o.one with
-             | .up d => !frameOK (touchedRange (c.target - cur) cur) din d
-             | _ => false) then some (.settingLost 0)
+    if cur == c.target then none
+    else if stepFrameBad c o cur (frameInput orc din0) then some (.settingLost (cur + 1))
+    else if oneFrameBad c o cur (frameInput orc din0) then some (.settingLost 0)
     else none
 
 def specWhy (orc : Oracles) (c : Case) (o : Obs) : Option Why :=
